@@ -192,7 +192,7 @@ pub fn run_case(ctx: &Ctx, case: &Case, counting: bool) -> PResult {
 					}
 					(Err(why), Ok(_)) => {
 						fail!(
-							format!("lock-rule-not-enforced:{:?}", std::mem::discriminant(why)),
+							format!("lock-rule-not-enforced:{}", format!("{:?}", why).split('(').next().unwrap_or("")),
 							"op {}: block violating {:?} accepted (h={}, tags {:?}, on {})",
 							i,
 							why,
